@@ -66,6 +66,9 @@ class BalancedMoveRule(BaseRule):
             #       remaining on the same side of the equation
             if self.has_add_siblings(node):
                 return None
+            # Dividing both sides by zero does not preserve the equation
+            if node.value == 0:
+                return None
 
             return _TYPE_CONST_OF_MULTIPLY
 
